@@ -205,3 +205,13 @@ pub fn posix_ambiguous(tz: &SharedPosix<&'static str>, d: D3, t: T4) -> (u8, i32
         IAmbiguousOffset::Fold { before, after } => (2, before.second, after.second),
     }
 }
+
+// ---- Span splitting used by Zoned arithmetic (C06)
+#[inline(always)]
+pub fn span_only_time(s: crate::Span) -> crate::Span {
+    s.only_time()
+}
+#[inline(always)]
+pub fn span_only_calendar(s: crate::Span) -> crate::Span {
+    s.only_calendar()
+}
